@@ -153,3 +153,28 @@ class Result:
             "known": self.known, "notes": self.notes[:5],
             "sets": {k: sorted(map(str, v))[:4000] for k, v in self.sets.items()},
         })
+
+
+def tight_stack_call(fn, headroom):
+    """fault injection without touching the code under test: runs fn() with only `headroom` frames of interpreter stack left, so
+    that a call which nests deeper is aborted by RecursionError somewhere inside the library.  Returns ("aborted", None) or
+    ("completed", value); any other exception is reported as ("raised", exc).  The recursion limit is restored in every case."""
+    import sys
+    depth = 0
+    f = sys._getframe()
+    while f is not None:
+        depth += 1
+        f = f.f_back
+    old = sys.getrecursionlimit()
+    try:
+        sys.setrecursionlimit(depth + max(3, headroom))
+        try:
+            return "completed", fn()
+        except RecursionError:
+            return "aborted", None
+        except BudgetStop:
+            raise
+        except Exception as e:      # noqa: BLE001 - whatever the tight stack provoked is not a verdict by itself
+            return "raised", e
+    finally:
+        sys.setrecursionlimit(old)
